@@ -7,6 +7,7 @@ import (
 
 	bnet "github.com/mosaicnetworks/babble/src/net"
 	_state "github.com/mosaicnetworks/babble/src/node/state"
+	"github.com/mosaicnetworks/babble/src/peers"
 )
 
 // ffScenario builds a network, runs a history and harvests valid triples.
@@ -262,14 +263,53 @@ func runC14(cs CaseSpec) *CaseResult {
 		if i%5 == 4 {
 			faddr = byz.Addr
 		}
-		ft := forgeResponse(rng, att, base, index, round, faddr)
+		v := victims[rng.Intn(len(victims))]
+		var named []*peers.Peer
+		namedKey, namedSig := "", ""
+		if i%4 == 2 && v.Core != nil {
+			// the forged set also names a validator the victim knows, the block has
+			// an index at which the victim holds (and once verified) that
+			// validator's signature, and the signature map repeats that genuine
+			// signature string under the validator's key. It is a signature of the
+			// honest block of that index, not of the forged one: the response is
+			// still endorsed by strangers only.
+			st := v.Core.Hg().Store
+			for idx := st.LastBlockIndex(); idx >= 0 && namedKey == ""; idx-- {
+				hb, e := st.GetBlock(idx)
+				if e != nil {
+					continue
+				}
+				for _, hn := range nw.Nodes {
+					if hn == v || hn.Puppet || hn.Key == nil {
+						continue
+					}
+					if gs, ok := hb.Signatures[hn.PubHex]; ok {
+						namedKey, namedSig, index = hn.PubHex, gs, idx
+						named = []*peers.Peer{mkPeer(hn.Key, hn.Addr, hn.Name)}
+						break
+					}
+				}
+			}
+			if namedKey != "" {
+				for len(att) < 2 {
+					att = append(att, &SimKey{detKey(cs.Seed, "forger-extra", cs.Index*1000+i*10+len(att))})
+				}
+				k = len(att)
+				base = nil
+				res.count("forged_responses_naming_a_known_validator_with_its_genuine_signature_of_the_honest_block_of_that_index", 1)
+			}
+		}
+		ft := forgeResponse(rng, att, base, index, round, faddr, named...)
 		if ft == nil {
 			continue
 		}
-		v := victims[rng.Intn(len(victims))]
 		signers := map[string]bool{}
 		for kx := range ft.Block.Signatures {
 			signers[kx] = true
+		}
+		if namedKey != "" {
+			// not a signer of this block: the entry is a signature of another body
+			ft.Block.Signatures[namedKey] = namedSig
 		}
 		if i%3 == 1 {
 			// decoys: entries filed under the keys of validators the victim knows
